@@ -220,6 +220,112 @@ pub fn run(rep: &mut Report, rng: &mut Rng, thorough: bool) {
             rep.case(format!("lzma2dec:{}", dict_class(dict)), true, || detail());
         }
     }
+    // LZMA reader with a preset dictionary and a declared size: the window is sized by min(dict, size + preset)
+    for &dict in &dicts {
+        if dict > (1 << 23) {
+            continue;
+        }
+        for (lc, lp) in [(3u32, 0u32), (0, 4)] {
+            let preset = gen_data(rng, "text", dict as usize);
+            let ulen = (dict as usize).saturating_sub(4096).max(100);
+            let data = gen_data(rng, "text", ulen);
+            let mut o = LzOpts { dict, lc, lp, pb: 2, normal: false, nice: 32, bt4: false, depth: 0, preset: Some(preset.clone()) };
+            o.dict = dict;
+            let est = lzma_get_memory_usage(dict, lc, lp).unwrap_or(0) as u64;
+            if let Outcome::Ok(comp) = lzma_compress(&data, &o, LzmaFmt::RawSize, &[data.len()]) {
+                let (res, peak) = measure(|| {
+                    guard(|| {
+                        let mut r = LZMAReader::new(comp.as_slice(), data.len() as u64, lc, lp, 2, dict, Some(&preset))?;
+                        let mut buf = [0u8; 4096];
+                        let mut n = 0usize;
+                        loop {
+                            let k = r.read(&mut buf)?;
+                            if k == 0 {
+                                break;
+                            }
+                            n += k;
+                        }
+                        Ok(n)
+                    })
+                });
+                let detail = || json!({"what": "lzma decoder with preset dictionary and declared size", "dict": dict, "lc": lc, "lp": lp, "preset_len": preset.len(), "declared_size": data.len(), "estimate_kib": est, "peak_bytes": peak});
+                rep.count("kind.lzma-decoder-preset");
+                match res {
+                    Outcome::Ok(n) if n == data.len() => {
+                        if (peak as u64) > est * 1024 {
+                            rep.fail("mem-estimate-unsound:lzma-decoder-preset", &format!("LZMA decoder (preset dictionary, declared size) peak {} KiB exceeds the estimate {} KiB", peak / 1024, est), detail());
+                        }
+                    }
+                    other => rep.fail("mem-decoder-run", &other.describe(), detail()),
+                }
+                rep.case(format!("lzmadec-preset:{}:lclp{}", dict_class(dict), lc + lp), true, || detail());
+            }
+        }
+    }
+    // LZMA2 with independent chunks: every chunk re-creates encoder state / re-sends the properties
+    for &dict in &dicts {
+        if dict > (1 << 20) {
+            continue;
+        }
+        for (lc, lp) in [(3u32, 0u32), (0, 4), (4, 0)] {
+            let o = LzOpts { dict, lc, lp, pb: 2, normal: false, nice: 32, bt4: false, depth: 0, preset: None };
+            let est_kib = o.to_opts().get_memory_usage() as u64;
+            let chunk = (dict as u64).max(65536);
+            let mut comp = Vec::new();
+            let (res, peak) = measure(|| {
+                guard(|| {
+                    let mut opts = LZMA2Options { lzma_options: o.to_opts(), chunk_size: None };
+                    opts.set_chunk_size(std::num::NonZeroU64::new(chunk));
+                    let mut w = LZMA2Writer::new(Vec::new(), opts);
+                    // (independent chunks start between the writer's internal window fills: write in pieces)
+                    for piece in data.chunks(40_000) {
+                        w.write_all(piece)?;
+                    }
+                    w.finish()
+                })
+            });
+            let detail = || json!({"what": "lzma2 encoder with chunk_size", "opts": o.json(), "chunk_size": chunk, "estimate_kib": est_kib, "peak_bytes": peak});
+            rep.count("kind.encoder-chunked");
+            match res {
+                Outcome::Ok(c) => {
+                    // the output Vec (<= input size here) is part of the measured peak: allow for it
+                    if (peak as u64) > est_kib * 1024 + c.capacity() as u64 {
+                        rep.fail("mem-estimate-unsound:encoder-chunked", &format!("LZMA2 encoder with chunk_size: peak {} KiB (output buffer {} KiB) exceeds the estimate {} KiB", peak / 1024, c.capacity() / 1024, est_kib), detail());
+                    }
+                    comp = c;
+                }
+                other => rep.fail("mem-encoder-run", &other.describe(), detail()),
+            }
+            rep.case(format!("enc-chunked:{}:lclp{}", dict_class(dict), lc + lp), true, || detail());
+            // the reader on that stream: properties are re-sent with every independent chunk
+            if !comp.is_empty() {
+                let est2 = lzma2_get_memory_usage(dict) as u64;
+                let (res, peak) = measure(|| {
+                    guard(|| {
+                        let mut r = LZMA2Reader::new(comp.as_slice(), dict, None);
+                        let mut buf = [0u8; 4096];
+                        let mut n = 0usize;
+                        loop {
+                            let k = r.read(&mut buf)?;
+                            if k == 0 {
+                                break;
+                            }
+                            n += k;
+                        }
+                        Ok(n)
+                    })
+                });
+                let detail = || json!({"what": "lzma2 decoder on a stream with several property resets", "dict": dict, "lc": lc, "lp": lp, "estimate_kib": est2, "peak_bytes": peak});
+                rep.count("kind.lzma2-decoder-props-reset");
+                if !matches!(res, Outcome::Ok(_)) {
+                    rep.fail("mem-decoder-run", &res.describe(), detail());
+                } else if (peak as u64) > est2 * 1024 {
+                    rep.fail("mem-estimate-unsound:lzma2-decoder-props-reset", &format!("LZMA2 decoder peak {} KiB exceeds the estimate {} KiB on a stream that re-sends its properties", peak / 1024, est2), detail());
+                }
+                rep.case(format!("lzma2dec-reset:{}:lclp{}", dict_class(dict), lc + lp), true, || detail());
+            }
+        }
+    }
     // memory limit of the .lzma reader: limit = need-1, need, need+1
     for i in 0..(if thorough { 400 } else { 80 }) {
         let dict = *rng.pick(&dicts);
